@@ -357,6 +357,7 @@ class CreditControlRequest(CreditControl):
         self.header.is_request = True
         self.header.is_proxyable = True
 
+        setattr(self, "framed_ipv6_prefix", [])
         setattr(self, "auth_application_id", 4)
         setattr(self, "subscription_id", [])
         setattr(self, "used_service_unit", [])
